@@ -77,6 +77,21 @@ CHECKS = {
    "Over the C05 byte universe, all token sequences up to 4 (thorough 5) tokens in three styles and pumped strings: exactly one of (expression, error) non-nil; a returned expression is usable; a SyntaxError carries the input, 0<=Offset<=len and the exact caret rendering; MustCompile panics iff Compile fails, naming the quoted expression, else returns an equivalent AST.",
    "Non-SyntaxError errors (JSON decoding, numeral range) are only required to be non-nil.",
    "DESIGN.md section 5 C17"),
+ "C06": ("S", "model_checking",
+   "exhaustive (expression x document) enumeration on a statement-instrumented build with a deep write monitor at every statement",
+   "Every built-in with every argument shape, bare and in 14 contexts (projection RHS, filter condition, pipe, multi-select, expression-reference body, error path), plus core/projection universes x documents with unsorted arrays, duplicates, nesting and hidden spare capacity: the document's deep snapshot (order-sensitive, up to capacity) is compared before, at EVERY statement of the instrumented library during, and after each call, on success and error paths; a write is reported with the file:line of the writing statement.",
+   "Instrumentation is generated from /repo's working tree at run time (go build -overlay). Statement granularity; generic JSON documents.",
+   "DESIGN.md section 5 C06"),
+ "C12": ("S", "model_checking",
+   "controlled cooperative scheduler over the statement-instrumented real code: solo write-monitor runs + independence reduction, and depth-first exploration of interleavings under a preemption bound",
+   "Scenarios S1-S4 (same compiled expression with same/different documents, one-shot Search on a shared document, Compile racing with Search) for every scenario expression: each thread body is run alone with a deep snapshot of all shared state (compiled expression, every package-level variable, shared documents) at every statement; no shared write and no sync operation proves all interleavings equivalent for any number of goroutines (independence theorem), an unsynchronised shared write is a data race; in addition real interleavings of 2 (thorough up to 3) threads are explored depth-first at statement granularity with preemption bound 1 (thorough 2), each schedule checked against the solo results; failing schedules are replayed 3 times.",
+   "Statement-level sequential consistency. Free-running go -race companion run alongside (reported in evidence, not the deciding step). sync.Mutex/RWMutex/Once/WaitGroup are shimmed; channels are not modelled (none in the library).",
+   "DESIGN.md sections 3.5, 3.6, 5 C12"),
+ "C13": ("H", "model_checking",
+   "explicit-state breadth-first search over call histories on real objects, state = deep snapshot digest, to a fixpoint",
+   "For every scenario expression: BFS over Search histories on one compiled object (8 documents incl. failing ones), state = digest of all private fields of the compiled expression plus every package-level variable, to closure (covers histories of every length), plus all histories up to length 2 (thorough 3) replayed call by call; every answer equals the fresh-Compile and the one-shot answer (map order harness-decided, exact equality). Parser: BFS over Parse histories of one Parser over 60 valid/invalid expressions to closure (477 states) plus all histories up to length 2 (thorough 3), each Parse equal to a fresh parser's on AST render and error type/message/offset.",
+   "Successor states are reached by replaying the shortest history on a fresh object (real objects can not be cloned).",
+   "DESIGN.md section 5 C13"),
 }
 
 NOT_YET = {}
@@ -97,6 +112,10 @@ def main():
        "add_only": True,
      },
      "engines": [
+       {"name": "S", "path": "/verif/cmd/vsched (+ /verif/vsched, /verif/cmd/instrument, /verif/snap)", "serves_properties": sorted(k for k, v in CHECKS.items() if v[0] == "S"),
+        "kind_free_text": "statement-level instrumented overlay build of /repo's working tree + cooperative scheduler with preemption-bounded DFS + deep-snapshot write monitor; free-running -race companion"},
+       {"name": "H", "path": "/verif/cmd/vsched/c13.go", "serves_properties": sorted(k for k, v in CHECKS.items() if v[0] == "H"),
+        "kind_free_text": "explicit-state BFS over call histories on real objects with snapshot-digest states"},
        {"name": "M", "path": "/verif/cmd/vcheck", "serves_properties": sorted(k for k, v in CHECKS.items() if v[0] == "M"),
         "kind_free_text": "independent reference model (grammar recogniser, precedence parser, evaluator) + bounded exhaustive enumeration of (expression, document) / token-sequence / byte-string universes, every enumerated case replayed against the real Compile/Search"},
      ],
